@@ -186,8 +186,9 @@ func (r *rdbdriver) GetLocationByMap(ipnet *net.IPNet, mapID []byte, context Con
 	copy(fullKey, ipMapRangePointKeyElement)   // prefix, 4 bytes
 	copy(fullKey[4:], mapID)                   // mapID, 2 bytes
 	copy(fullKey[6:], ipnet.IP.To16())
-	reqMaskLen, _ := ipnet.Mask.Size()
-	if isIPv4(ipnet.IP) {
+	reqMaskLen, maskBits := ipnet.Mask.Size()
+	if isIPv4(ipnet.IP) && maskBits == 8*net.IPv4len {
+		// a 128-bit mask (v6-mapped address of an IPv6-family client subnet) already counts the 96 prefix bits
 		reqMaskLen += 128 - 32
 	}
 	copy(fullKey[6+16:], []byte{uint8(reqMaskLen)})
